@@ -37,7 +37,7 @@ ASSUMPTIONS = [
   "adding to a mixer whose iterator already raised StopIteration is outside the contract",
 ]
 
-ZEROS = {"0": 0, "0.0": 0.0, "Q0": Q(0)}
+ZEROS = {"0": 0, "0.0": 0.0, "Q0": Q(0), "Q10": Q(10), "-2.5": -2.5}
 BASES = [10, 7, 13, 100]
 
 
@@ -181,7 +181,8 @@ def replay(hist, keep, zk, base, ties=()):
 def same(a, b):
   if isinstance(a, str) or isinstance(b, str) or a is None or b is None:
     return a == b
-  return a == b
+  # zero + items: the value AND its type (1 is not 1.0 when the zero value is a float)
+  return a == b and type(a) is type(b)
 
 
 def first_diff(obs, exp):
@@ -265,7 +266,7 @@ def gen_programs(run):
       pts = [p for p in pts if p[-1] <= 4]
     for deltas in itertools.product(run.rot(dl), repeat=k):
       for keep in (False, True):
-        zk = ["0", "0.0", "Q0"][(len(deltas) + keep) % 3]
+        zk = ["0", "0.0", "Q0", "Q10", "-2.5"][(len(deltas) + keep + sum(map(len, deltas))) % 5]
         # one shard = all lengths x insertion points for this delta vector
         yield (k, list(deltas), keep, zk, base, lens_alpha, P if k < 4 else 4)
 
@@ -477,7 +478,7 @@ def main(run):
   print("  bfs: %d states, %d transitions (%d changing state), depth %d, closed=%s, %.1fs"
         % (st["states"], k["extra"]["transitions"], k["extra"]["transitions_changing_state"],
            st["depth"], st["closed"], st["wall_s"]))
-  deepest = max(st["seen"].values(), key=lambda c: len(c[1]))
+  deepest = max(st["seen"].values(), key=lambda c: len(c[1]), default=[[None], []])
   run.samples.insert(0, {"kind": "bfs", "deepest_history": deepest[1]})
   traces = k["extra"]["transitions"] + run.per_kind["programs"]["evaluations"] + \
       run.per_kind["drift"]["evaluations"] + run.per_kind["control"]["evaluations"]
